@@ -5,4 +5,4 @@ mod=$1; fn=$2; shift; shift
 VERIF_LIGHT=1 python3 tools/extract.py build/dev/flounder_v.rs build/dev/report.json || exit 2
 args="--verify-only-module $mod"
 [ -n "$fn" ] && [ "$fn" != "-" ] && args="$args --verify-function $fn"
-verus build/dev/flounder_v.rs --crate-type bin --extern rand=build/librand.rlib --multiple-errors 5 --rlimit 20 --triggers-mode silent $args "$@" 2>&1 | grep -v "^warning: unused\|^  *= note: .#\[warn" | head -${VRUN_LINES:-80}
+verus build/dev/flounder_v.rs --crate-type bin --extern rand=build/librand.rlib --multiple-errors 5 --rlimit ${VRUN_RLIMIT:-20} --triggers-mode silent $args "$@" 2>&1 | grep -v "^warning: unused\|^  *= note: .#\[warn" | head -${VRUN_LINES:-80}
